@@ -65,7 +65,7 @@ var propertyCanaries = map[string][]string{
 	"C09": {"RAW.stride", "GOPROTO.accumzero", "GOPROTO.semcap", "GOPROTO.scratch", "GLOBAL.write", "GOPROTO.capture", "GOPROTO.lockpair", "GOPROTO.sibling", "POOL.uaf"},
 	"C12": {"GRAPHINV.together", "GRAPHINV.expose", "SWAP.cond", "GRAPHINV.prune", "TWIN.sibguard", "GRAPHINV.panicorder", "GRAPHINV.absent", "GRAPHINV.iterreset", "GRAPHINV.converse", "GRAPHINV.uid", "GRAPHINV.iter", "TWIN.sibstate"},
 	"C16": {"RESET.revive", "DECODE.order", "DECODE.errdrop", "DECODE.mul", "DECODE.selfcmp", "DECODE.clone", "DECODE.fields"},
-	"C17": {"RESET.noleak", "GLOBAL.write", "RESET.fields", "WINDOW.pointwise"},
+	"C17": {"CMPLX.parts", "RESET.noleak", "GLOBAL.write", "RESET.fields", "WINDOW.pointwise"},
 	"C18": {"RAW.stride", "SWAP.cond", "GOPROTO.accumzero", "CONST.stencil", "GOPROTO.sibling"},
 	"C19": {"OPT.maskpair", "ALIAS.config", "OPT.limits", "GOPROTO.scratch", "GOPROTO.run", "INIT.state"},
 }
@@ -111,6 +111,7 @@ func init() {
 		{"RESET.revive", "graph/formats/rdf/rdf.go", "\tdec.strings = make(store)\n\tif dec.ids == nil {\n", "\tif dec.ids == nil {\n\t\tdec.strings = make(store)\n", func() *core.Result { return decode.RunRevive(def, core.Pkgs("./graph/formats/rdf")) }},
 		{"OPT.maskpair", "optimize/local.go", "if needs.Hessian && op&HessEvaluation == 0 {", "if needs.Hessian && op&GradEvaluation == 0 {", func() *core.Result { return initx.RunMaskPair(def, core.Pkgs("./optimize")) }},
 		{"MAT.selfguard", "mat/vector.go", "\tif v == a {\n\t\treturn\n\t}\n\tn := a.Len()\n\tv.mat = blas64.Vector{\n\t\tN:    n,\n\t\tInc:  1,\n\t\tData: use(v.mat.Data, n),\n\t}\n", "\tn := a.Len()\n\tv.mat = blas64.Vector{\n\t\tN:    n,\n\t\tInc:  1,\n\t\tData: use(v.mat.Data, n),\n\t}\n\tif v == a {\n\t\treturn\n\t}\n", func() *core.Result { return matargs.RunSelfGuard(def) }},
+		{"CMPLX.parts", "dsp/window/window_complex.go", "w := a0 - a1*math.Cos(x) + a2*math.Cos(2*x) - a3*math.Cos(3*x)\n\t\tseq[i] = complex(w*real(v), w*imag(v))", "w := a0 - a1*math.Cos(x) + a2*math.Cos(2*x) - a3*math.Cos(3*x)\n\t\tseq[i] = complex(w*real(v), w*real(v))", func() *core.Result { return swapx.Run(def, core.Pkgs("./dsp/window")) }},
 		{"BETA.noread", "blas/gonum/level3float64.go", "\tif beta == 0 {\n\t\tfor i := 0; i < m; i++ {\n\t\t\tctmp := c[i*ldc : i*ldc+n]\n\t\t\tfor j := range ctmp {\n\t\t\t\tctmp[j] = 0", "\tif beta == 0 {\n\t\tfor i := 0; i < m; i++ {\n\t\t\tctmp := c[i*ldc : i*ldc+n]\n\t\t\tfor j := range ctmp {\n\t\t\t\tctmp[j] *= beta", func() *core.Result { return flagx.RunBetaZero(def, core.Pkgs("./blas/gonum")) }},
 		{"GUARD.operand", "lapack/gonum/dbdsqr.go", "if ncc > 0 {\n\t\t\t\timpl.Dlasr(blas.Left, lapack.Variable, lapack.Forward, n, ncc, work, work[n-1:], c, ldc)", "if nru > 0 {\n\t\t\t\timpl.Dlasr(blas.Left, lapack.Variable, lapack.Forward, n, ncc, work, work[n-1:], c, ldc)", func() *core.Result { return flagx.RunGuardOperand(def, core.Pkgs("./lapack/gonum")) }},
 		{"GOPROTO.scratch", "optimize/minimize.go", "\tworker := func() {\n\t\tx := make([]float64, dim)\n", "\tx := make([]float64, dim)\n\tworker := func() {\n", func() *core.Result { return goproto.Run(def, core.Pkgs("./optimize")) }},
